@@ -3,6 +3,7 @@ package props
 import (
 	"fmt"
 	"sort"
+	"strings"
 	"testing"
 	"time"
 
@@ -168,7 +169,15 @@ func specText(it *astisub.Item) string {
 	if len(it.Lines) == 0 {
 		return "~"
 	}
-	return itemText(it)
+	var ls []string
+	for _, l := range it.Lines {
+		if len(l.Items) == 0 {
+			ls = append(ls, "^") // a line without any run
+		} else {
+			ls = append(ls, l.String())
+		}
+	}
+	return strings.Join(ls, "|")
 }
 
 func itemText(it *astisub.Item) string {
